@@ -103,8 +103,11 @@ def checkVar (es : List Entry) (v : Var) : List String :=
     (match bad with
      | none => []
      | some (o, w) =>
-       -- the read-modify-write idiom alone (no read of the field) is a recorded finding
-       let tag := if v.rw == "w" then "C04-write-only-packed-field:" else "C04-packed-field:"
+       -- a packed word that is only written, with its shifts spelt SHL rather than as a
+       -- multiplication by 2^k, is a recorded finding (the shift pass recognises multiplications only)
+       let writeOnly := !(v.rw.contains 'r')
+       let usesMul := v.rw.contains 'M'
+       let tag := if writeOnly && !usesMul then "C04-write-only-packed-field:" else "C04-packed-field:"
        [s!"{tag}{slotText} field {w}@{o} reported " ++ ",".intercalate (here.map (fun e => s!"{e.offset}:{e.typ}"))])
   | _ => []
 
